@@ -260,6 +260,15 @@ def run(ctx: Ctx) -> None:
     from .c12 import run as _c12  # noqa: F401  (namespace-walk obligations are evaluated by the shared helper below)
     _namespace_walk(ctx, "R1.7")
 
+    # ---------------------------------------------------------------- R1.10
+    # "#include ... with the same names": the include operand is cut out of the directive text by the handler; that the
+    # handler undoes exactly the layout the lexer rule admits is C09's R9.4, evaluated here under this property's id (the
+    # finding already listed for C09 - a trailing comment taken into the name - stays keyed under C09 only)
+    from . import c09
+    from ..report import run_shared
+    run_shared(ctx, c09.run, {"R9.4": ("R1.10", "the #include operand is what is written after the directive name, whatever blanks the lexer rule admits")},
+               {"R9.4|lexer:PlyLexer.t_INCLUDE_DIRECTIVE|trailing comment"})
+
     # ---------------------------------------------------------------- R1.9
     ctx.rule("R1.9", "parsed information is not dropped: no value-bearing local dies unread, every parameter of a parsing method is used", minimum=150)
     from ..cfg import node_defs
